@@ -62,6 +62,12 @@ def run(chk, db):
     from . import c06
     chk.rule('PF', 'every Serializer flavour writes through SerializerCommon::Write: Prepare(Size(value)) succeeds before the first byte is written', minimum=4)
     c06.prepare_first(chk, db, 'PF')
+    # errors enter the status discipline at the transport: a stream primitive that runs out of data must turn that into a status
+    from .. import rwrules
+    chk.rule('ST', 'stream reader / writer primitives report a shortfall of the underlying stream as an error status', minimum=6)
+    chk.rule('SS', 'stream status mapping', minimum=2)
+    rwrules.check_stream_class(chk, db, 'nop::StreamReader', 'reader', 'ST', 'SS')
+    rwrules.check_stream_class(chk, db, 'nop::StreamWriter', 'writer', 'ST', 'SS')
     chk.explanation = (
         'Abstract interpretation (status local -> Untested/Ok/Failed) of %d function instances under include/nop; every '
         'status-producing call site (%d distinct file:line:col sites) is a fault position and is checked against SD1-SD4. '
